@@ -46,7 +46,8 @@ class Case:
         self.fault = fault
         self.ops = []
         self.tag = tag
-        self._eid = 100
+        # identities of caller-made elements: above the initial contents' (1..len), below 9000 (suffix ops) when possible
+        self._eid = 100 if len(self.vals) < 90 else 10000 + len(self.vals)
 
     def e(self, val=None):
         """a fresh caller-owned element id:val"""
